@@ -47,4 +47,6 @@ var configs = map[string]config{
 		Assumptions: assume("equivalence classes are generated constructively: one abstract web URL, two independently drawn spellings using only the variations the statement lists; decoding-free profiles get only the subset the URL Standard itself normalises", "a dot segment inserted at the very end is only used when the URL ends in a slash anyway (otherwise it would add one, which is not a spelling difference)")},
 	"C02": {Tests: "^TestC02$", QuickChecks: 15000, ThoroughChecks: 150000, QuickShards: 8, ThoroughShards: 16,
 		Assumptions: assume("'any parser configuration constructible from the public options' means options given non-nil values of their parameter types and total callback functions; BasicParser with a state override is exercised only through the setters; SearchParams handles come from SearchParams() / Clone (DESIGN §7.8)", "termination is decided by a 20 s per-case watchdog whose suspicion is confirmed by re-running the single case in a fresh process with a 120 s limit; a time budget hit is otherwise inconclusive, never a violation", "arguments are bounded to about 16 KB")},
+	"C14": {Tests: "^TestC14$", QuickChecks: 1200, ThoroughChecks: 8000, QuickShards: 8, ThoroughShards: 16, Race: true,
+		Assumptions: assume("the Go race detector is happens-before based: it reports two conflicting unsynchronised accesses whenever both occur in the run, independent of timing; interleavings are those the Go scheduler produced, not an enumeration", "'only read' = pure getters, Clone and use as a base; the first SearchParams() call on a shared URL hands out a mutable handle and is not in the concurrent operation set (DESIGN §7.4)", "a reported race is confirmed by replaying the program in a fresh process (the detector reports each race once per process); programs are not minimised further")},
 }
